@@ -28,6 +28,7 @@ import (
 	"sort"
 	"strconv"
 	"strings"
+	"sync"
 	"syscall"
 	"time"
 
@@ -148,6 +149,7 @@ func (s *sentinel) reset() {
 //  5. barrier: create and remove a marker file and read the queue until the marker's removal has been seen — the
 //     harness's own directory walks, restores and the marker itself are thereby consumed, and the next window
 //     starts with an empty queue.
+//
 // Returns: had children, net change (""), names opened/read (only meaningful when there is no net change).
 func (s *sentinel) closeCase(release func()) (proc bool, change string, opened []string) {
 	proc = reapChildren()
@@ -491,6 +493,86 @@ local function runnest(defs, g)
   local ok, msg = pcall(go, 1)
   return ok, tostring(msg)
 end
+-- calls made by code that runs AT THE EDGE of the context or is called back by a library function: g is called
+-- (protected) from a __close handler when the context is left by an error / normally / when an inner pcall is
+-- left, from an xpcall message handler, from a table.sort comparator, from a string.gsub callback, from a
+-- coroutine created outside and resumed inside, and from a __gc finaliser of an object created inside.
+-- Each returns the context status and what the protected call of g gave (nil: the callback never ran).
+local function mk(g, ...)
+  local n, args = select('#', ...), {...}
+  local R
+  local armed = true
+  -- (disarmed by the harness when the case is closed: a finaliser that only runs later must not act in the
+  -- observation window of another case)
+  local function probe() if armed and R == nil then R = table.pack(pcall(g, table.unpack(args, 1, n))) end end
+  return probe, function(cmd) if cmd == "disarm" then armed = false end return R end
+end
+local edge = {}
+edge.close_err = function(flags, g, ...)
+  local probe, res = mk(g, ...)
+  local ctx = runtime.callcontext({flags = flags}, function()
+    local x <close> = setmetatable({}, {__close = probe})
+    error("leaving the context by an error")
+  end)
+  return ctx.status, res()
+end
+edge.close_ok = function(flags, g, ...)
+  local probe, res = mk(g, ...)
+  local ctx = runtime.callcontext({flags = flags}, function()
+    local x <close> = setmetatable({}, {__close = probe})
+    return 1
+  end)
+  return ctx.status, res()
+end
+edge.close_pcall = function(flags, g, ...)
+  local probe, res = mk(g, ...)
+  local ctx = runtime.callcontext({flags = flags}, function()
+    return pcall(function()
+      local x <close> = setmetatable({}, {__close = probe})
+      error("leaving the pcall by an error")
+    end)
+  end)
+  return ctx.status, res()
+end
+edge.xpcall_handler = function(flags, g, ...)
+  local probe, res = mk(g, ...)
+  local ctx = runtime.callcontext({flags = flags}, function()
+    return xpcall(function() error("to the handler") end, function(m) probe() return m end)
+  end)
+  return ctx.status, res()
+end
+edge.sort_cmp = function(flags, g, ...)
+  local probe, res = mk(g, ...)
+  local ctx = runtime.callcontext({flags = flags}, function()
+    local t = {3, 1, 2}
+    table.sort(t, function(a, b) probe() return a < b end)
+    return t[1]
+  end)
+  return ctx.status, res()
+end
+edge.gsub_cb = function(flags, g, ...)
+  local probe, res = mk(g, ...)
+  local ctx = runtime.callcontext({flags = flags}, function()
+    return (string.gsub("abc", "b", function() probe() return "x" end))
+  end)
+  return ctx.status, res()
+end
+edge.co_outside_in = function(flags, g, ...)
+  local probe, res = mk(g, ...)
+  local co = coroutine.create(function() probe() return 1 end)
+  local ctx = runtime.callcontext({flags = flags}, function() return coroutine.resume(co) end)
+  return ctx.status, res()
+end
+-- the finaliser may run any time after the object died: the harness forces collections after the context has
+-- ended and then asks res
+edge.gc = function(flags, g, ...)
+  local probe, res = mk(g, ...)
+  local ctx = runtime.callcontext({flags = flags}, function()
+    setmetatable({}, {__gc = probe})
+    return 1
+  end)
+  return ctx.status, res
+end
 local derived = {}
 local function add(name, f) local ok, v = pcall(f) if ok and v ~= nil then derived[name] = v end end
 add("coroutine.wrap()", function() return coroutine.wrap(function() coroutine.yield(1) end) end)
@@ -518,7 +600,7 @@ local pool = {
   {"co", coroutine.create(function() coroutine.yield() end)},
   {"stdout", io.stdout},
 }
-return run, runthen, derived, pool, runnest
+return run, runthen, derived, pool, runnest, edge
 `
 
 type env struct {
@@ -526,6 +608,7 @@ type env struct {
 	run      rt.Value
 	runthen  rt.Value
 	runnest  rt.Value
+	edge     *rt.Table
 	derived  *rt.Table
 	pool     []poolVal
 	sent     *sentinel
@@ -552,11 +635,12 @@ func newEnv(sent *sentinel) *env {
 	set("sub", filepath.Join(sent.dir, "sub"))
 	set("cmd", "touch "+filepath.Join(sent.dir, "spawned"))
 	class, res, msg := hlib.PCall(r, rt.FunctionValue(c), rt.TableValue(S))
-	if class != hlib.OK || len(res) != 5 {
+	if class != hlib.OK || len(res) != 6 {
 		fmt.Fprintln(os.Stderr, "c08 harness: prelude failed:", class, msg)
 		os.Exit(2)
 	}
 	e.run, e.runthen, e.runnest = res[0], res[1], res[4]
+	e.edge = res[5].AsTable()
 	e.derived = res[2].AsTable()
 	pt := res[3].AsTable()
 	for i := int64(1); i <= pt.Len(); i++ {
@@ -792,6 +876,63 @@ func (e *env) inspect(vals []rt.Value) bool {
 // which case the following system calls belong to: /.c08/<kind>/<F>/<function>
 var markers = os.Getenv("C08_MARKERS") != ""
 
+// per-case watchdog: a single call that does not come back within a minute is a hang of golua (or of the harness):
+// it is reported as such and the worker exits; slowness of the machine only ever shortens the enumeration (budget).
+var (
+	wdMu    sync.Mutex
+	wdStart time.Time
+	wdWhat  string
+)
+
+func wdBegin(what string) {
+	wdMu.Lock()
+	wdStart, wdWhat = time.Now(), what
+	wdMu.Unlock()
+}
+
+func wdEnd() {
+	wdMu.Lock()
+	wdStart = time.Time{}
+	wdMu.Unlock()
+}
+
+func watchdog() {
+	for {
+		time.Sleep(time.Second)
+		wdMu.Lock()
+		st, what := wdStart, wdWhat
+		wdMu.Unlock()
+		if !st.IsZero() && time.Since(st) > 90*time.Second {
+			fmt.Fprintf(os.Stderr, "c08 harness: case does not return: %s\n", what)
+			hlib.Emit("hang", what)
+			hlib.Out.Flush()
+			os.Exit(3)
+		}
+	}
+}
+
+// budget: C08_BUDGET_S seconds after the start no further case is started (the one in progress is finished)
+var (
+	startTime = time.Now()
+	budget    time.Duration
+	planned   int
+	done      int
+	exhausted bool
+)
+
+func withinBudget() bool {
+	planned++
+	if exhausted {
+		return false
+	}
+	if budget > 0 && time.Since(startTime) > budget {
+		exhausted = true
+		return false
+	}
+	done++
+	return true
+}
+
 func mark(kind string, F int, sym string) {
 	if markers {
 		syscall.Access("/.c08/"+kind+"/"+strconv.Itoa(F)+"/"+strings.ReplaceAll(sym, "/", "_"), 0)
@@ -799,8 +940,9 @@ func mark(kind string, F int, sym string) {
 }
 
 func (e *env) oneCase(fi *fnInfo, F int, sp string, t tuple) (outcome, effect string) {
+	wdBegin(fmt.Sprintf("%s %s %d %s %s", fi.sym, hlib.Hex(fi.name), F, sp, hex.EncodeToString([]byte(t.id))))
+	defer wdEnd()
 	mark("case", F, fi.sym)
-	defer mark("end", F, fi.sym)
 	args := []rt.Value{rt.StringValue(flagString(F)), rt.StringValue(sp), fi.val}
 	if sp == "index" {
 		if len(t.vals) > 0 {
@@ -863,6 +1005,7 @@ func (e *env) oneCase(fi *fnInfo, F int, sp string, t tuple) (outcome, effect st
 		effect = "read"
 	}
 	handed = nil
+	mark("end", F, fi.sym) // what follows is the harness's own bookkeeping (reaping, directory walk, barrier file)
 	proc, change, opened := e.sent.closeCase(func() {
 		// the case is over: what it opened or created is released now, not during some later case
 		e.r.MainThread().CollectGarbage()
@@ -884,11 +1027,99 @@ func (e *env) oneCase(fi *fnInfo, F int, sp string, t tuple) (outcome, effect st
 	return
 }
 
+var edgeSpellings = []string{"close_err", "close_ok", "close_pcall", "xpcall_handler", "sort_cmp", "gsub_cb", "co_outside_in", "gc"}
+
+// edgeCase: g called from code at the edge of the context (see the prelude).  outcome: missing:<mask> | ok | err |
+// notrun (the callback was never called) | harness-err
+func (e *env) edgeCase(fi *fnInfo, F int, sp string, t tuple) (outcome, effect string) {
+	wdBegin(fmt.Sprintf("%s %s %d %s %s", fi.sym, hlib.Hex(fi.name), F, sp, hex.EncodeToString([]byte(t.id))))
+	defer wdEnd()
+	mark("case", F, fi.sym)
+	args := append([]rt.Value{rt.StringValue(flagString(F)), fi.val}, t.vals...)
+	class, res, _ := hlib.PCall(e.r, e.edge.Get(rt.StringValue(sp)), args...)
+	outcome = "harness-err"
+	var R rt.Value
+	if class == hlib.OK && len(res) >= 1 {
+		if len(res) >= 2 {
+			R = res[1]
+		}
+		if sp == "gc" && !R.IsNil() {
+			// the object died inside the context: collect now (the context is over) and ask what the finaliser saw
+			getter := R
+			R = rt.NilValue
+			for i := 0; i < 3 && R.IsNil(); i++ {
+				e.r.MainThread().CollectGarbage()
+				goruntime.Gosched()
+				time.Sleep(200 * time.Microsecond)
+				e.r.MainThread().CollectGarbage()
+				if c, r2, _ := hlib.PCall(e.r, getter); c == hlib.OK && len(r2) > 0 {
+					R = r2[0]
+				}
+			}
+			// whatever has not run by now is switched off before the window closes
+			if c, r2, _ := hlib.PCall(e.r, getter, rt.StringValue("disarm")); c == hlib.OK && len(r2) > 0 && R.IsNil() {
+				R = r2[0]
+			}
+		}
+		outcome = "notrun"
+		if tb, ok := R.TryTable(); ok && tb != nil {
+			outcome = "err"
+			if b, _ := tb.Get(rt.IntValue(1)).TryBool(); b {
+				outcome = "ok"
+			} else if s, ok := tb.Get(rt.IntValue(2)).ToString(); ok {
+				if m, ok := parseMissing(s); ok {
+					outcome = "missing:" + strconv.Itoa(m)
+				}
+			}
+		}
+	}
+	effect = "none"
+	mark("end", F, fi.sym)
+	proc, change, opened := e.sent.closeCase(func() {
+		e.r.MainThread().CollectGarbage()
+		goruntime.Gosched()
+		e.r.MainThread().CollectGarbage()
+	})
+	if proc {
+		effect = "proc"
+	}
+	if change != "" {
+		if effect == "none" {
+			effect = "fs:" + change
+		} else {
+			effect += "+fs:" + change
+		}
+	} else if len(opened) > 0 && effect == "none" {
+		effect = "open:" + strings.Join(opened, ",")
+	}
+	return
+}
+
+// effectful: the functions from which the call graph reaches an operating-system sink or a safeio gate (written by
+// checks/c08.py from the regenerated graph); without the file: every function that does not declare all flags
+func effectfulSet() map[string]bool {
+	p := os.Getenv("C08_EFFECTFUL")
+	if p == "" {
+		return nil
+	}
+	b, err := os.ReadFile(p)
+	if err != nil {
+		return nil
+	}
+	m := map[string]bool{}
+	for _, l := range strings.Fields(string(b)) {
+		m[l] = true
+	}
+	return m
+}
+
 // nest: the call inside a chain of nested contexts (flags and hard limits), e.g. "4,0c" = a context requiring
 // iosafe and inside it a context with a CPU limit
 var nestChains = []string{"4,8", "1,2,4", "0c", "0m,8", "4,0t", "0,0", "8,0cm", "2,0,1"}
 
 func (e *env) nest(fi *fnInfo, chain string) string {
+	wdBegin(fmt.Sprintf("%s %s nest %s", fi.sym, hlib.Hex(fi.name), chain))
+	defer wdEnd()
 	mark("nest", 0, fi.sym)
 	defer mark("end", 0, fi.sym)
 	defs := rt.NewTable()
@@ -936,6 +1167,8 @@ func (e *env) nest(fi *fnInfo, chain string) string {
 // returns the status of the context, whether the inner call was refused, and whether the call made
 // AFTER it in the same context worked.
 func (e *env) keepsRunning(fi *fnInfo, F int) string {
+	wdBegin(fmt.Sprintf("%s %s %d then ()", fi.sym, hlib.Hex(fi.name), F))
+	defer wdEnd()
 	mark("case", F, fi.sym)
 	defer mark("end", F, fi.sym)
 	class, res, _ := hlib.PCall(e.r, e.runthen, rt.StringValue(flagString(F)), fi.val)
@@ -973,13 +1206,28 @@ func main() {
 		if len(os.Args) > 4 {
 			filter = os.Args[4]
 		}
+		// C08_SHARD=i/n: this worker takes the functions whose index is i modulo n (its own sentinel directory)
+		if sh := os.Getenv("C08_SHARD"); sh != "" {
+			fmt.Sscanf(sh, "%d/%d", &shardI, &shardN)
+		}
+		if b, err := strconv.Atoi(os.Getenv("C08_BUDGET_S")); err == nil && b > 0 {
+			budget = time.Duration(b) * time.Second
+		}
+		onlyEffectful = os.Getenv("C08_ONLY_EFFECTFUL") != ""
+		go watchdog()
 		runAll(tier, dir, filter)
+		hlib.Emit("coverage", strconv.Itoa(planned), strconv.Itoa(done), fmt.Sprint(exhausted), fmt.Sprintf("%.1f", time.Since(startTime).Seconds()))
 	default:
 		fmt.Fprintln(os.Stderr, "unknown mode", mode)
 		os.Exit(2)
 	}
 	hlib.Out.Flush()
 }
+
+var (
+	shardI, shardN = 0, 1
+	onlyEffectful  bool
+)
 
 func runAll(tier, dir, filter string) {
 	dir, _ = filepath.Abs(dir)
@@ -996,87 +1244,146 @@ func runAll(tier, dir, filter string) {
 	for _, fi := range fns {
 		hlib.Emit("fn", fi.sym, hlib.Hex(fi.name), strconv.Itoa(fi.flags), strconv.Itoa(fi.nArgs), fmt.Sprint(fi.etc), fi.via, hlib.Hex(fi.path))
 	}
-	rng := hlib.NewRng(hlib.Seed())
+	effectful := effectfulSet()
 	spellings := []string{"pcall", "call", "index", "wrap", "load"}
-	for idx := range fns {
-		if filter != "" && !strings.Contains(fns[idx].sym, filter) {
-			continue
-		}
-		// a fresh runtime per function: whatever a permitted call does to the runtime stays local
-		var e *env
-		var fi *fnInfo
-		fresh := func() bool {
-			e = newEnv(sent)
-			defer sent.settle() // building the runtime opens the sentinel data file (io.lines seed)
-			efns := e.enumerate()
-			sort.SliceStable(efns, func(i, j int) bool { return efns[i].path < efns[j].path })
-			if len(efns) != len(fns) || efns[idx].sym != fns[idx].sym || efns[idx].path != fns[idx].path {
-				return false
-			}
-			fi = efns[idx]
-			return true
-		}
-		if !fresh() {
-			hlib.Emit("nondeterministic-enumeration", fns[idx].sym)
-			continue
-		}
-		// a permitted call may leave the runtime unusable for the harness itself (debug.sethook with a
-		// hook that raises): then the case is repeated once in a new runtime
-		do := func(F int, sp string, t tuple) (string, string) {
-			o, eff := e.oneCase(fi, F, sp, t)
-			if o == "harness-err" && fresh() {
-				o, eff = e.oneCase(fi, F, sp, t)
-				fresh()
-			}
-			return o, eff
-		}
-		full, few, spellTuples := e.tuples(tier, fi, rng)
-		for F := 0; F < 16; F++ {
-			willRun := fi.flags&F == F
-			if willRun && dangerous(fi) {
-				hlib.Emit("case", fi.sym, hlib.Hex(fi.name), strconv.Itoa(F), "direct", "()", "skipped", "none")
+	// thorough = the quick volume for EVERY function first, then the exhaustive volume for as long as the time
+	// budget lasts: running out of time thins the enumeration, it never drops a function
+	passes := []string{tier}
+	if tier == "thorough" {
+		passes = []string{"quick", "thorough"}
+	}
+	for _, tier := range passes {
+		rng := hlib.NewRng(hlib.Seed())
+		for idx := range fns {
+			if filter != "" && !strings.Contains(fns[idx].sym, filter) {
 				continue
 			}
-			// quick tier: the whole tuple pool for iosafe alone and for the function's own declaration (and, for
-			// functions that do not declare everything, for no flags at all: that is where effects are expected);
-			// the short list for the other subsets.  thorough: the whole pool everywhere.
-			tuplesHere := few
-			if tier == "thorough" || F == 4 || F == fi.flags || (F == 0 && fi.flags != 15) {
-				tuplesHere = full
+			if idx%shardN != shardI {
+				continue
 			}
-			for _, t := range tuplesHere {
-				o, eff := do(F, "direct", t)
-				hlib.Emit("case", fi.sym, hlib.Hex(fi.name), strconv.Itoa(F), "direct", hex.EncodeToString([]byte(t.id)), o, eff)
+			if onlyEffectful && effectful != nil && !effectful[fns[idx].sym] {
+				continue
 			}
-			for _, sp := range spellings {
-				for _, t := range spellTuples {
-					o, eff := do(F, sp, t)
-					hlib.Emit("case", fi.sym, hlib.Hex(fi.name), strconv.Itoa(F), sp, hex.EncodeToString([]byte(t.id)), o, eff)
+			// a fresh runtime per function: whatever a permitted call does to the runtime stays local
+			var e *env
+			var fi *fnInfo
+			fresh := func() bool {
+				e = newEnv(sent)
+				defer sent.settle() // building the runtime opens the sentinel data file (io.lines seed)
+				efns := e.enumerate()
+				sort.SliceStable(efns, func(i, j int) bool { return efns[i].path < efns[j].path })
+				if len(efns) != len(fns) || efns[idx].sym != fns[idx].sym || efns[idx].path != fns[idx].path {
+					return false
 				}
+				fi = efns[idx]
+				return true
 			}
-			th := e.keepsRunning(fi, F)
-			if strings.HasPrefix(th, "harness-") && fresh() {
-				th = e.keepsRunning(fi, F)
-				fresh()
+			if !fresh() {
+				hlib.Emit("nondeterministic-enumeration", fns[idx].sym)
+				continue
 			}
-			hlib.Emit("then", fi.sym, hlib.Hex(fi.name), strconv.Itoa(F), th)
-			sent.settle() // the call made by the `then` probe may have had (permitted) effects
-		}
-		if !dangerous(fi) {
-			for _, ch := range nestChains {
-				// a memory limit around code that ends a coroutine created outside it crashes the process
-				// ("Too much mem released", a defect recorded under C06): keep those chains away from coroutines
-				if strings.Contains(ch, "m") && (strings.Contains(fi.sym, "/coroutine.") || strings.Contains(fi.path, "coroutine")) {
+			// a permitted call may leave the runtime unusable for the harness itself (debug.sethook with a
+			// hook that raises): then the case is repeated once in a new runtime
+			do := func(F int, sp string, t tuple) (string, string) {
+				o, eff := e.oneCase(fi, F, sp, t)
+				if o == "harness-err" && fresh() {
+					o, eff = e.oneCase(fi, F, sp, t)
+					fresh()
+				}
+				return o, eff
+			}
+			full, few, spellTuples := e.tuples(tier, fi, rng)
+			for F := 0; F < 16; F++ {
+				willRun := fi.flags&F == F
+				if willRun && dangerous(fi) {
+					hlib.Emit("case", fi.sym, hlib.Hex(fi.name), strconv.Itoa(F), "direct", "()", "skipped", "none")
 					continue
 				}
-				o := e.nest(fi, ch)
-				if strings.HasPrefix(o, "harness-") && fresh() {
-					o = e.nest(fi, ch)
+				// quick tier: the whole tuple pool for iosafe alone and for the function's own declaration (and, for
+				// functions that do not declare everything, for no flags at all: that is where effects are expected);
+				// the short list for the other subsets.  thorough: the whole pool everywhere.
+				tuplesHere := few
+				if tier == "thorough" || F == 4 || F == fi.flags || (F == 0 && fi.flags != 15) {
+					tuplesHere = full
 				}
-				hlib.Emit("nest", fi.sym, hlib.Hex(fi.name), ch, o)
-				sent.settle()
+				for _, t := range tuplesHere {
+					if !withinBudget() {
+						continue
+					}
+					o, eff := do(F, "direct", t)
+					hlib.Emit("case", fi.sym, hlib.Hex(fi.name), strconv.Itoa(F), "direct", hex.EncodeToString([]byte(t.id)), o, eff)
+				}
+				for _, sp := range spellings {
+					for _, t := range spellTuples {
+						if !withinBudget() {
+							continue
+						}
+						o, eff := do(F, sp, t)
+						hlib.Emit("case", fi.sym, hlib.Hex(fi.name), strconv.Itoa(F), sp, hex.EncodeToString([]byte(t.id)), o, eff)
+					}
+				}
+				if len(passes) == 2 && tier == "thorough" {
+					continue // done in the first pass
+				}
+				if !withinBudget() {
+					continue
+				}
+				th := e.keepsRunning(fi, F)
+				if strings.HasPrefix(th, "harness-") && fresh() {
+					th = e.keepsRunning(fi, F)
+					fresh()
+				}
+				hlib.Emit("then", fi.sym, hlib.Hex(fi.name), strconv.Itoa(F), th)
+				sent.settle() // the call made by the `then` probe may have had (permitted) effects
 			}
+			// calls from the edge of the context (handlers, callbacks, finalisers) for every function that can reach the outside
+			isEff := fi.flags != 15
+			if effectful != nil {
+				isEff = effectful[fi.sym]
+			}
+			if len(passes) == 2 && tier == "quick" {
+				isEff = false // the edge cases are enumerated once, with the thorough flag sets, in the second pass
+			}
+			if isEff && !dangerous(fi) {
+				edgeFlags := []int{4, 8, 15}
+				if tier == "thorough" {
+					edgeFlags = []int{1, 2, 4, 5, 8, 12, 15}
+				}
+				for _, F := range edgeFlags {
+					for _, sp := range edgeSpellings {
+						for _, t := range few {
+							if !withinBudget() {
+								continue
+							}
+							o, eff := e.edgeCase(fi, F, sp, t)
+							if o == "harness-err" && fresh() {
+								o, eff = e.edgeCase(fi, F, sp, t)
+								fresh()
+							}
+							hlib.Emit("case", fi.sym, hlib.Hex(fi.name), strconv.Itoa(F), sp, hex.EncodeToString([]byte(t.id)), o, eff)
+						}
+					}
+				}
+			}
+			if !dangerous(fi) && !(len(passes) == 2 && tier == "thorough") {
+				for _, ch := range nestChains {
+					// a memory limit around code that ends a coroutine created outside it crashes the process
+					// ("Too much mem released", a defect recorded under C06): keep those chains away from coroutines
+					if strings.Contains(ch, "m") && (strings.Contains(fi.sym, "/coroutine.") || strings.Contains(fi.path, "coroutine")) {
+						continue
+					}
+					if !withinBudget() {
+						continue
+					}
+					o := e.nest(fi, ch)
+					if strings.HasPrefix(o, "harness-") && fresh() {
+						o = e.nest(fi, ch)
+					}
+					hlib.Emit("nest", fi.sym, hlib.Hex(fi.name), ch, o)
+					sent.settle()
+				}
+			}
+			hlib.Out.Flush()
 		}
-		hlib.Out.Flush()
 	}
 }
